@@ -73,6 +73,10 @@ func (p c01) Run(c *fw.Ctx, idx int) fw.Result {
 	res := fw.Result{}
 	r := c.Rng(idx, "c01")
 	prof := fed.RandomProfile(r)
+	if idx >= baseCases(c.Tier) {
+		prof.IfaceRel = idx%2 == 0
+		prof.Requires2 = idx%3 == 0
+	}
 	l := fed.GenLayout(r, prof)
 	layoutDetail := func() map[string]any {
 		d := map[string]any{"supergraph": l.SuperSDL, "layout": l.Describe}
@@ -96,7 +100,15 @@ func (p c01) Run(c *fw.Ctx, idx int) fw.Result {
 	res.Count("layouts", 1)
 	res.Observe("layout_features", featureString(prof))
 	var keys []string
-	for k := 0; k < opsPerCase; k++ {
+	var directed []*gen.Doc
+	if prof.IfaceRel {
+		directed = directedIfaceRelDocs(l.Super)
+	}
+	for k := 0; k < opsPerCase+len(directed); k++ {
+		if k >= opsPerCase {
+			// directed operations run through the same oracles (see directedIfaceRelDocs)
+			res.Count("directed_operations", 1)
+		}
 		op := gen.DefaultOpProfile(r)
 		op.MaxDepth = 2 + r.IntN(3)
 		op.NoSingletonVars = true
@@ -108,6 +120,9 @@ func (p c01) Run(c *fw.Ctx, idx int) fw.Result {
 			op.Kind = "mutation"
 		}
 		doc, vals := gen.GenOperation(r, l.Super, op)
+		if k >= opsPerCase {
+			doc, vals = directed[k-opsPerCase], map[string]*gen.Val{}
+		}
 		text := doc.String()
 		if len(text) > 20000 {
 			// Echo + MultiFrag + Duplicates occasionally explode (operations of several 100 KB); all PRNG
@@ -294,4 +309,60 @@ func safeExecute(gw *fed.Gateway, text string, vars []byte) (res *fed.Result, p 
 		}
 	}()
 	return gw.Execute(context.Background(), text, "", vars), nil
+}
+
+// directedIfaceRelDocs builds, for layouts whose interface Node declares relOwner, one operation per
+// implementer T that selects the same entity field on the interface and again under `... on T`:
+//
+//	{ nodes { __typename relOwner { <leaves> } ... on T { relOwner { <leaves> } } } someNode { … same … } }
+//
+// (the generator's Echo option produces this shape too, but a case also needs a universe in which
+// the list holds items of several types; the directed form makes the shape present in every such layout).
+func directedIfaceRelDocs(s *gen.Schema) []*gen.Doc {
+	node := s.Type("Node")
+	q := s.Type(s.Query)
+	if node == nil || q == nil || node.Field("relOwner") == nil {
+		return nil
+	}
+	target := s.Type(node.Field("relOwner").Type.NamedType())
+	leaves := func() []*gen.Sel {
+		var out []*gen.Sel
+		for _, f := range target.Fields {
+			required := false
+			for _, a := range f.Args {
+				if a.Type.NonNull && a.Default == nil {
+					required = true
+				}
+			}
+			if !required && s.IsLeaf(f.Type.NamedType()) {
+				out = append(out, &gen.Sel{Field: &gen.FieldSel{Name: f.Name, Def: f, Parent: target.Name}})
+			}
+		}
+		return out
+	}
+	rel := func(parent string, def *gen.Field) *gen.Sel {
+		return &gen.Sel{Field: &gen.FieldSel{Name: "relOwner", Def: def, Parent: parent, Sel: leaves()}}
+	}
+	var docs []*gen.Doc
+	for _, t := range s.Types {
+		if t.Kind != gen.Object || !s.Overlap(t.Name, "Node") || t.Field("relOwner") == nil {
+			continue
+		}
+		var roots []*gen.Sel
+		for _, rf := range []string{"nodes", "someNode"} {
+			def := q.Field(rf)
+			if def == nil {
+				continue
+			}
+			roots = append(roots, &gen.Sel{Field: &gen.FieldSel{Name: rf, Def: def, Parent: s.Query, Sel: []*gen.Sel{
+				{Field: &gen.FieldSel{Name: "__typename", Parent: "Node"}},
+				rel("Node", node.Field("relOwner")),
+				{Inline: &gen.InlineFrag{On: t.Name, Parent: "Node", Sel: []*gen.Sel{rel(t.Name, t.Field("relOwner"))}}},
+			}}})
+		}
+		if len(roots) > 0 {
+			docs = append(docs, &gen.Doc{Ops: []*gen.Op{{Kind: "query", Name: "D", Sel: roots}}})
+		}
+	}
+	return docs
 }
